@@ -81,10 +81,10 @@ pub fn write_folded_block<W: Write>(
             continue;
         }
 
-        // If the line starts with a space, avoid wrapping. Wrapping could move those
-        // leading spaces across a folded newline and interact with YAML's
+        // If the line starts with a space or a tab, avoid wrapping. Wrapping could move those
+        // leading blanks across a folded newline and interact with YAML's
         // "more-indented" rule.
-        if line.starts_with(' ') {
+        if line.starts_with([' ', '\t']) {
             out.write_str(indent_str)?;
             out.write_str(line)?;
             out.write_char('\n')?;
@@ -121,7 +121,11 @@ pub fn write_folded_block<W: Write>(
             if in_space_run && ch != ' ' {
                 // run_end = previous char boundary (prev_i + prev_ch_len)
                 let run_end = prev_i + prev_ch_len;
-                last_space_run = Some((run_start, run_end, run_len));
+                // A run followed by a tab is no place to break: the next line would start
+                // with the tab, and a line that starts with white space is not folded back.
+                if ch != '\t' {
+                    last_space_run = Some((run_start, run_end, run_len));
+                }
                 in_space_run = false;
                 run_len = 0;
             }
